@@ -49,7 +49,7 @@ Theorem no_lost_wakeup :
 Proof. exact acquire_keeps_waiters_blocked. Qed.
 Print Assumptions no_lost_wakeup.
 
-(* [FULL] any tree, all interleavings: two different operations that are inside their sections on the same tract (between lock and unlock, which is where all their Disk calls and CtlRead happen) are both readers; a step of an operation on one tract leaves the lock entry, map entry and file of every other tract unchanged. Carve-out: the gone path of GCTracts takes no lock *)
+(* [FULL] any tree, all interleavings: two different operations that are inside their sections on the same tract (between lock and unlock, which is where all their Disk calls and CtlRead happen) are both readers; a step of an operation on one tract leaves the lock entry, map entry and file of every other tract unchanged. This covers every operation of the current tree, the GC gone path included since fix ab74e69; excluded is only KGoneOld, the lock-free gone program of the code before that fix, which is kept in the model for the REFUTED regression witnesses *)
 Theorem sections_do_not_interleave :
   forall V s, reachable V s ->
     (forall i j a b id, i <> j -> nth_error (snd s) i = Some a -> nth_error (snd s) j = Some b ->
@@ -67,7 +67,7 @@ Proof.
 Qed.
 Print Assumptions sections_do_not_interleave.
 
-(* [REFUTED] the carve-out is real: GCTracts gone path, the Delete of a lock-free GC falls between the Open and the Getxattr of a writer that holds the tract lock *)
+(* [REFUTED] regression witness for the code before fix ab74e69 (program KGoneOld): the Delete of the then lock-free GC gone path falls between the Open and the Getxattr of a writer that holds the tract lock *)
 Theorem sections_gcgone_refuted :
   let s' := run_sched repaired (g_one_tract, [new_thread op_write; new_thread op_gone])
                       [(0%nat, 0); (0%nat, 0); (0%nat, 0); (0%nat, 0); (1%nat, 0); (1%nat, 0)] in
@@ -78,7 +78,7 @@ Theorem sections_gcgone_refuted :
 Proof. exact gcgone_witness. Qed.
 Print Assumptions sections_gcgone_refuted.
 
-(* [FULL] any tree: while a reader (Read, Stat, Check, scrub step) is inside its section, no step of any other operation except the lock-free GC gone path changes the file of its tract, so the version it checks and the data or size it returns belong to one state *)
+(* [FULL] any tree: while a reader (Read, Stat, Check, scrub step) is inside its section, no step of any other operation of the current tree (excluded is only KGoneOld, the lock-free gone program before fix ab74e69) changes the file of its tract, so the version it checks and the data or size it returns belong to one state *)
 Theorem read_sees_one_state :
   forall V s i j inj s' a b,
     reachable V s -> sys_step V s j inj = Some s' ->
@@ -121,7 +121,7 @@ Theorem manager_open_count_balanced :
 Proof. exact mgr_balanced. Qed.
 Print Assumptions manager_open_count_balanced.
 
-(* [FULL] serial equivalence over any finite set of operations on any number of tracts, any tree, every schedule, every oracle answer, every wake-up order; carve-out by name: the lock-free GC gone path. When all operations have returned, the operations that got their tract lock, taken in the order in which they released it, each run alone on an idle store that holds its tract in the state its predecessors left and changing that tract only, yield exactly the per-operation results and, for every tract, the final map entry, file and generation of the interleaved execution; every other operation was refused (busy, bad version, invalid argument) and changed nothing. Release order respects real time (an operation that returned before another was invoked released first), so the chain is a linearization. Every modelled operation touches one local tract (PackTracts reads its sources remotely); RSEncode touches no local tract and is not modelled *)
+(* [FULL] serial equivalence over any finite set of operations on any number of tracts, any tree, every schedule, every oracle answer, every wake-up order, the GC gone path included (ok_op excludes only KGoneOld, the lock-free gone program of the code before fix ab74e69). When all operations have returned, the operations that got their tract lock, taken in the order in which they released it, each run alone on an idle store that holds its tract in the state its predecessors left and changing that tract only, yield exactly the per-operation results and, for every tract, the final map entry, file and generation of the interleaved execution; every other operation was refused (busy, bad version, invalid argument) and changed nothing. Release order respects real time (an operation that returned before another was invoked released first), so the chain is a linearization. Every modelled operation touches one local tract (PackTracts reads its sources remotely); RSEncode touches no local tract and is not modelled *)
 Theorem serial_equivalence :
   forall V ops g0 sched,
     init_g g0 -> Forall ok_op ops ->
@@ -145,15 +145,17 @@ Theorem serial_witness_facts :
 Proof. split; [exact tract_local | exact GSer_swap_readers]. Qed.
 Print Assumptions serial_witness_facts.
 
-(* [REFUTED] the carve-out is real: the GC gone path deletes a tract between the lookup and the Delete of a PullTract that holds the long-writer lock; the copy-in returns ErrNoSuchTract although its source delivered, whereas it returns NoError in both serial orders *)
+(* [REFUTED] regression witness for the code before fix ab74e69 (program KGoneOld, finding F26): the lock-free GC gone path deletes a tract between the lookup and the Delete of a PullTract that holds the long-writer lock; the copy-in returns ErrNoSuchTract although its source delivered, whereas it returns NoError in both serial orders; with the gone program of the current tree the same schedule ends with NoError because the GC skips the busy tract *)
 Theorem serial_equivalence_gcgone_refuted :
   let inter := run_sched repaired s_pull_gone (sched_of 0 8 ++ sched_of 1 4 ++ sched_of 0 12) in
   let serA := run_sched repaired s_pull_gone (sched_of 0 40 ++ sched_of 1 10) in
   let serB := run_sched repaired s_pull_gone (sched_of 1 10 ++ sched_of 0 40) in
   all_done inter = true /\ all_done serA = true /\ all_done serB = true /\
   res_of inter 0 = Some [c18_e_NoSuchTract] /\ res_of serA 0 = Some [c18_e_NoError] /\ res_of serB 0 = Some [c18_e_NoError] /\
-  at_ 0 (fst inter) = (None, None, Some 2).
-Proof. exact gcgone_not_serializable. Qed.
+  at_ 0 (fst inter) = (None, None, Some 2) /\
+  (let fixed := run_sched repaired (g_one_tract, [new_thread op_pull; new_thread op_gone_locked]) (sched_of 0 8 ++ sched_of 1 4 ++ sched_of 0 30) in
+   all_done fixed = true /\ res_of fixed 0 = Some [c18_e_NoError] /\ res_of fixed 1 = Some []).
+Proof. split; [|split; [|split; [|split; [|split; [|split; [|split]]]]]]; try apply gcgone_not_serializable. exact gcgone_locked_same_schedule. Qed.
 Print Assumptions serial_equivalence_gcgone_refuted.
 
 (* [FULL] the tree the FULL theorems above are instantiated at: the current tree carries all three fixes *)
